@@ -10,7 +10,7 @@ from ..report import RuleSpec
 from .. import sym
 from .. import order as O
 from .. import frameops as FO
-from .common import as_dict, unparse, call_name, local_defs, short
+from .common import as_dict, unparse, call_name, local_defs, short, inline_locals
 
 DOM = "reamber.algorithms.utils.dominant_bpm.dominant_bpm"
 SPEED = "reamber.algorithms.analysis.scroll_speed.scroll_speed"
@@ -720,19 +720,28 @@ def _project_insert(fn, a):
         frame, sel = v.value, v.slice
     else:
         return None
-    if not (isinstance(sel, ast.Call) and call_name(sel) in ("drop", "difference") and len(sel.args) == 1 and
-            unparse(sel.args[0]).strip("[]'\"") == "multiplier" and isinstance(sel.func, ast.Attribute)):
+    def get_loc_of(pos, decl):
+        return isinstance(pos, ast.Call) and call_name(pos) == "get_loc" and unparse(pos.func.value) == unparse(decl) and \
+            len(pos.args) == 1 and isinstance(pos.args[0], ast.Constant) and pos.args[0].value == "multiplier"
+    inl = lambda e: inline_locals(fn.node, e)    # noqa: E731
+    sel = inl(sel)
+    by_name = isinstance(sel, ast.Call) and call_name(sel) in ("drop", "difference") and len(sel.args) == 1 and \
+        unparse(sel.args[0]).strip("[]'\"") == "multiplier" and isinstance(sel.func, ast.Attribute)
+    # DECL.delete(DECL.get_loc("multiplier")): the same columns, the one left out named by its position
+    by_pos = isinstance(sel, ast.Call) and call_name(sel) == "delete" and len(sel.args) == 1 and isinstance(sel.func, ast.Attribute) and \
+        get_loc_of(sel.args[0], sel.func.value)
+    if not (by_name or by_pos):
         return None
     decl = sel.func.value
+    frame = inl(frame)
     ins = [c for c in walk_no_nested(fn.node) if isinstance(c, ast.Call) and call_name(c) == "insert" and isinstance(c.func, ast.Attribute) and
            unparse(c.func.value) == a.id and len(c.args) == 3 and isinstance(c.args[1], ast.Constant) and c.args[1].value == "multiplier"]
     if len(ins) != 1:
         return None
-    pos = ins[0].args[0]
-    if not (isinstance(pos, ast.Call) and call_name(pos) == "get_loc" and unparse(pos.func.value) == unparse(decl) and
-            len(pos.args) == 1 and isinstance(pos.args[0], ast.Constant) and pos.args[0].value == "multiplier"):
+    pos = inl(ins[0].args[0])
+    if not get_loc_of(pos, decl):
         return None
-    return frame, ins[0].args[2], decl, ins[0]
+    return frame, inl(ins[0].args[2]), decl, ins[0]
 
 
 def _r3_columnwise(ctx, fn, file, ret, cw) -> List[R.Inst]:
